@@ -174,7 +174,7 @@ theorem applied_step {N : Nat} {s s' : State} {a : Action} (hs : step N s a = so
     · injection hs with hs; subst hs
       simp only [setNode]; by_cases hk : n = k <;> simp [hk]
     · cases hs
-  | sendAppend k dst prev kk =>
+  | sendAppend k dst prev kk c =>
     left
     simp only [step] at hs
     split at hs
@@ -228,7 +228,7 @@ theorem applied_step {N : Nat} {s s' : State} {a : Action} (hs : step N s a = so
       · subst hk; simp
       · simp [hk]
     · cases hs
-  | sendSnapshot k dst kk =>
+  | sendSnapshot k dst kk c =>
     left
     simp only [step] at hs
     split at hs
